@@ -1022,3 +1022,42 @@ class C10(core.Property):
 
 
 PROPERTY = C10
+
+
+# ---------------------------------------------------------------------------------------------
+# Second tie for class Workspace (appended; harness/gen_ast.py, coq/Base/PyMini.v, Proofs/AstWorkspaceEquiv.v):
+# the SOURCE TEXT of Workspace.__init__, _create_text_document, add_folder, remove_folder, get_text_document,
+# get_notebook_document, put_text_document, remove_text_document, put_notebook_document,
+# remove_notebook_document and update_text_document is translated on every run by a fail-closed AST
+# translator into a deep embedding, and the kernel re-checks that each method does to the four dictionaries
+# exactly what Model/Workspace.v says (KeyError of update_text_document included).  update_notebook_document
+# is NOT translated (it mutates objects through aliases; PyMini has values, not references).  Imported late
+# ("Module::theorem") so that a broken translator tie does not hide the other obligations.
+import sys as _sys
+_sys.path.insert(0, os.path.dirname(os.path.abspath(__file__)))
+import gen_c10 as _gen_c10
+
+C10.obligations = list(C10.obligations) + ["Proofs.AstWorkspaceEquiv::" + n for n in (
+    "ast_workspace_equiv", "ast_workspace_init_equiv", "ast_workspace_example")]
+C10.coq_targets = list(C10.coq_targets) + ["Proofs/AstWorkspaceEquiv.vo"]
+C10.trusted_base = list(C10.trusted_base) + [
+    "translator tie: harness/gen_ast.py (Python ast -> PyMini, fail-closed) and the PyMini semantics "
+    "coq/Base/PyMini.v (hand-written meaning of the Python subset: dict get / pop / item assignment / del, "
+    "for over a list, TextDocument(...) as the record of its arguments, copy.deepcopy as the identity on values)"]
+_prev_regenerate = getattr(C10, "regenerate", None)
+
+
+def _regenerate(self, chk):
+    try:
+        if _prev_regenerate is not None:
+            _prev_regenerate(self, chk)
+    finally:
+        core.coq_make(["Props/C10.vo", "Extract/ExtractC10.vo"])     # the differential side first
+        with core._Lock("coq"):                                      # coq/Gen is shared
+            try:
+                _gen_c10.main()
+            finally:
+                core._coq_make(["Proofs/AstWorkspaceEquiv.vo"])
+
+
+C10.regenerate = _regenerate
